@@ -269,6 +269,29 @@ def _work_lengths(task) -> core.Part:
     return p
 
 
+def _work_relations(task) -> core.Part:
+    """Relations between data sets of one block: the same address twice, two addresses with the same field name, equal
+    values with different units, a multi-valued set before/after a single-valued one for the same address."""
+    p = core.Part()
+    vals = [("0001.320", "kW"), ("0001.321", "kW"), ("230.1", "V"), ("ABC", None), ("", None)]
+    addrs = ["1-0:1.7.0", "1.7.0", "0-0:96.1.0", "0-0:0.0.5", "1-0:32.7.0", "1-0:9.9.9"]
+    import itertools
+    for (a1, a2) in itertools.product(addrs, repeat=2):
+        for (v1, v2) in itertools.product(vals, repeat=2):
+            for multi in (0, 1, 2):
+                s1 = [v1] if multi != 1 else [v1, v2]
+                s2 = [v2] if multi != 2 else [v2, v1]
+                ls = [[(a1, s1)], [("1-0:72.7.0", [("230.4", "V")])], [(a2, s2)]]
+                e = check_block(ls)
+                p.add("evaluations")
+                p.add("nontrivial")
+                if e:
+                    _rep(p, "relation", ls, e)
+                    if p.full("relation"):
+                        return p
+    return p
+
+
 def bind() -> int:
     """The exact parser must agree with the expectations written in tests/test_dlde.py for its captured examples."""
     import tests.test_dlde as td
@@ -297,6 +320,7 @@ def main(run: core.Run) -> int:
     cd = KNOWN_CDE + ["9.7.0", "96.14.0", "0.2.8", "99.97.0", "24.2.1"]
     run.merge(par.pmap(_work_addr, [(cd[i::8],) for i in range(8)], seed=run.seed))
     run.merge(par.pmap(_work_clock_ident, [0], seed=run.seed))
+    run.merge(par.pmap(_work_relations, [0], seed=run.seed))
     lens = list(range(0, 131)) + [255, 256, 257, 1000, 4000]
     run.merge(par.pmap(_work_lengths, [(lens[i::16],) for i in range(16)], seed=run.seed))
     tot = run.total
